@@ -164,8 +164,8 @@ CHECKS["C20"] = {
     "corpus": True,
     "runs": [R("./vm", {"fn": r"^ZZ_C20_chain1$"}, {"fn": r"^ZZ_C20_chain[12]$", "wall_timeout": 7200})],
     "expect_asserts": [r"C20\.same-result/neg/int64/slice-element", r"C20\.same-error-or-success/deref/\*int64/struct-field", r"C20\.same-error-or-success/close/chan-open/go-call-interface", r"C20\.same-result/add-l/int64/variable"],
-    "bounds": {"templates": "60 operation templates (unary/binary operators in both operand positions, index, slice, len, in, call/spread/callee, member, deref, for-in, switch subject/case, conditions, make length, channel send/receive/close, delete, throw, assignment source/target, defer and go callee, literals, return, delete name and global flag, nil in switch subject and case, == / != nil, make(type), send channel)",
-               "values": "40 classes of the value universe (among them values of a defined integer type with a method and of a defined string type), symbolic payloads where a class has one", "provenance": "chains of length 1 (quick) / 2 (thorough) over 12 hops: variable, slice element, map entry, script call, Go call returning interface{}, parentheses, ?:, ??, struct field, and three that hand out addressable values: element of a Go slice of the value's own type, field of its own type through a struct pointer, *p"},
+    "bounds": {"templates": "63 operation templates (a Go function whose parameter has the value's own type, typed list / map literals of that type, unary/binary operators in both operand positions, index, slice, len, in, call/spread/callee, member, deref, for-in, switch subject/case, conditions, make length, channel send/receive/close, delete, throw, assignment source/target, defer and go callee, literals, return, delete name and global flag, nil in switch subject and case, == / != nil, make(type), send channel)",
+               "values": "40 classes of the value universe (among them values of a defined integer type with a method and of a defined string type), symbolic payloads where a class has one", "provenance": "chains of length 1 (quick) / 2 (thorough) over 14 hops: a Go function declared to return a defined interface type, an element of a slice of that type, variable, slice element, map entry, script call, Go call returning interface{}, parentheses, ?:, ??, struct field, and three that hand out addressable values: element of a Go slice of the value's own type, field of its own type through a struct pointer, *p"},
     "stubs": [], "assumptions": ["functions, channels and pointers are distinct objects in the two runs: their dynamic type is compared, not their identity", "all NaNs are one value"],
     "outside": ["effects on the environment beyond the result", "assignment targets whose store must re-bind the target (strings, append at len)", "chains of length 3"],
 }
